@@ -144,7 +144,8 @@ def load_known():
 
 
 def kf_match(kf, v):
-    if kf.get("status") != "open" or kf["property"] != v["prop"] or kf["class"] != v["cls"]:
+    classes = kf["class"] if isinstance(kf["class"], list) else [kf["class"]]
+    if kf.get("status") != "open" or kf["property"] != v["prop"] or v["cls"] not in classes:
         return False
     for key, want in (kf.get("where") or {}).items():
         got = v.get("sig", {}).get(key)
